@@ -153,12 +153,20 @@ def ref_schedule(spec, horizon_end=None):
             ts = pstart + timedelta(seconds=s * L)
             free = all(cal.whole_slot_working(r, s) and (r, s) not in booked for r in alloc)
             if free:
+                # every member's booking counts against the limits: check the members one after the other against
+                # what is left after the members checked before them (tentative increments, undone afterwards)
+                tentative = []
                 for r in alloc:
-                    for g in res_chain[r]:
-                        if not all(l.ok(ts, r) for l in res_lims[g]):
-                            free = False
-                    if not all(l.ok(ts, r) for l in lims_t):
+                    ls = [l for g in res_chain[r] for l in res_lims[g]] + lims_t
+                    if not all(l.ok(ts, r) for l in ls):
                         free = False
+                        break
+                    for l in ls:
+                        before = dict(l.count)
+                        l.inc(ts, r)
+                        tentative.append((l, before))
+                for l, before in reversed(tentative):
+                    l.count = before
             if free:
                 for r in alloc:
                     booked.add((r, s))
